@@ -18,7 +18,7 @@ META = {
             "assertions (copyRead's from.len == 0, no overwrite of an unsent buffer) cannot fail (C06_no_assertion_failure). "
             "Tie: SQUID_TCP_SO_RCVBUF regenerated from the headers; the extracted model is diffed against the real squid "
             "binary between a raw TCP client and a scripted raw TCP server on random binary payloads both ways (all 256 byte "
-            "values, 0..200 KB, random segmentation and interleaving, bytes sent in the same segment as the CONNECT head, "
+            "values, 0..140 KB, random segmentation and interleaving, bytes sent in the same segment as the CONNECT head, "
             "half-closes by either side, also while the other side is still streaming).",
     "note": "partial: the theorems are about the transcribed copy loops (PipetunnelModel.v part 2) over an explicit event "
             "list; that Comm delivers read/write/close callbacks as the events assume, and the CONNECT set-up path "
@@ -51,8 +51,8 @@ def gen_chunks(rng, big_ok=True):
             out.append(["all"])
         elif r < 0.2:
             out.append(["hex", rng.choice(["00", "ff", "0d0a0d0a", "485454502f312e3120323030204f4b0d0a0d0a", "0a", "00000000"])])
-        elif r < 0.3 and big_ok:
-            out.append([rng.choice([65534, 65535, 65536, 70000, 131070, 200000]), rng.getrandbits(30)])
+        elif r < 0.235 and big_ok:
+            out.append([rng.choice([65534, 65535, 65536, 65536, 70000, 131072]), rng.getrandbits(30)])
         else:
             out.append([rng.choice([1, 2, 7, 100, 1460, 4096, 9000]) if rng.random() < 0.6 else rng.randrange(1, 3000), rng.getrandbits(30)])
     return out
@@ -62,7 +62,7 @@ def gen_one(rng, k):
     r = rng.random()
     early = []
     if r < 0.45:
-        early = [rng.choice([["all"], [rng.randrange(1, 600), rng.getrandbits(30)], [rng.choice([1, 2000, 20000, 70000]), rng.getrandbits(30)],
+        early = [rng.choice([["all"], [rng.randrange(1, 600), rng.getrandbits(30)], [rng.choice([1, 2000, 20000, 20000, 70000]), rng.getrandbits(30)],
                              ["hex", "474554202f20485454502f312e310d0a0d0a"]])]
     phases = []
     for _ in range(rng.choice([0, 1, 1, 2, 3])):
@@ -72,7 +72,7 @@ def gen_one(rng, k):
     if end.endswith("race"):
         last = {"c": gen_chunks(rng), "s": gen_chunks(rng)}
         # the side that keeps streaming sends a lot
-        last["s" if end[0] == "c" else "c"] += [[rng.choice([100000, 300000]), rng.getrandbits(30)]]
+        last["s" if end[0] == "c" else "c"] += [[rng.choice([70000, 70000, 140000]), rng.getrandbits(30)]]
     # model-side interleaving of the internal events (by the theorems the result does not depend on it)
     msched = [rng.choice(["rC:1", "rC:70000", "rS:3", "rS:70000", "wC", "wS", "z"]) for _ in range(rng.choice([0, 2, 6]))]
     return {"early": early, "phases": phases, "end": end, "last": last, "msched": msched, "k": k}
@@ -343,16 +343,16 @@ def oracle(s, obs):
 def run(res, tier):
     res.rule = ("CONNECT 127.0.0.1:<port> through the real squid to a scripted raw TCP server; 45% of the tunnels carry early "
                 "client bytes in the same segment as the CONNECT head (1..70000 bytes, all 256 values, a fake HTTP request); "
-                "0..3 phases in which both sides send 0..5 chunks each (1 byte .. 200000 bytes, random binary, sizes around the "
+                "0..3 phases in which both sides send 0..5 chunks each (1 byte .. 131072 bytes, random binary, sizes around the "
                 "65535-byte tunnel buffer, CRLFCRLF and fake status lines) with random pauses and then wait for each other; "
                 "the tunnel ends with a half-close by the client or the server, in one third of the cases while the other side "
-                "is still streaming 100-300 KB (that direction is then checked for being an unaltered prefix); observables: "
+                "is still streaming 70-140 KB (that direction is then checked for being an unaltered prefix); observables: "
                 "length and Adler-32 of the bytes received at each end, EOF seen at each end; non-trivial = some payload or "
                 "early bytes")
     try:
         std.run_lab(res, PID, tier, area="pipetunnel", gens=["pipetunnel"], gen_scenarios=gen_scenarios, run_impl=run_impl,
                     to_case=to_case, oracle=oracle, corr_name="PipetunnelModel (trun/tsettle) vs the running squid",
-                    n_quick=120, n_thorough=2000, seed_salt=6,
+                    n_quick=100, n_thorough=2000, seed_salt=6,
                     kind_fn=lambda s, o: "%s:%s" % (s["end"], "early" if s["early"] else "noearly"),
                     nontrivial_fn=lambda s, o: bool(s["early"] or s["phases"] or s["last"]))
     finally:
